@@ -176,7 +176,7 @@ def covOfData (pre : St) (d : Data) (sends : List Send) : List String :=
 def keepClause (pid : String) (f : SpecFail) : Bool := f.clause.startsWith pid
 
 /-- the step function of the executables; `pid` selects which property's clauses are reported -/
-def stepFw (pid : String) (d : DrvSt) (op : String) (got : String) : StepResult DrvSt :=
+def stepFwCore (pid : String) (d : DrvSt) (op : String) (got : String) : StepResult DrvSt :=
   let bad : StepResult DrvSt := { st := d, expected := some "bad-op" }
   let cfgAll (o : Op) : StepResult DrvSt :=
     { st := { d with m := (step d.m o).1, rest := d.rest.map (fun s => (step s o).1), sp := Spec.cfgOp d.sp o },
@@ -385,5 +385,22 @@ def stepFw (pid : String) (d : DrvSt) (op : String) (got : String) : StepResult 
           nontrivial := !sends.isEmpty }
     | _, _, _, _ => bad
   | _ => bad
+
+
+/-- `IT …`: the Interest of `I …` with a second complete packet (Data /localhost/smuggled) behind it in the SAME
+    frame. A frame carries one network-layer packet: the link service drops it (F-09c repaired), nothing happens. -/
+def stepFw (pid : String) (d : DrvSt) (op : String) (got : String) : StepResult DrvSt :=
+  if op.startsWith "IT " then
+    if !d.ls then { st := d, expected := some "skip" } else
+    -- spec side: whatever the implementation sent is judged as for the plain Interest (a /localhost Data that
+    -- leaves on a non-local face is a C09 violation, an Interest forwarded from a dropped frame shows as a DIFF)
+    let r := stepFwCore pid d ("I " ++ (op.drop 3).toString) got
+    { st := d, expected := none,
+      spec := r.spec.filter (fun f => f.clause.startsWith "C09-localhost-sent-nonlocal" || f.clause == "C01-no-crash" || f.clause.startsWith "C01-data-to-non-pending") ++
+              (if (got.splitOn " | ").headD "" != "" && !isCrash got then
+                 [⟨"C09-frame-with-two-packets-forwarded", "trailing", s!"a frame holding an Interest AND a second packet behind it was not dropped; transmitted: {(got.splitOn " | ").headD ""}"⟩]
+               else []),
+      cov := ["interest-with-trailing-packet"] }
+  else stepFwCore pid d op got
 
 end Ndn.Fw.Drv
